@@ -148,6 +148,61 @@ impl Sink {
 }
 
 /// Run the real code, turning a panic into `Err(())`.
+/// set once a call did not come back in time: the thread it runs on is lost (and may hold locks), so later
+/// calls through `with_deadline` are not started any more
+pub static HUNG: std::sync::atomic::AtomicBool = std::sync::atomic::AtomicBool::new(false);
+
+type Job = Box<dyn FnOnce() + Send + 'static>;
+static WORKER: std::sync::Mutex<Option<std::sync::mpsc::Sender<Job>>> = std::sync::Mutex::new(None);
+
+/// Run `f` on the harness's worker thread - one long-lived thread that makes all calls into the code under
+/// test one after the other, as a verifier serving requests does, so that whatever the code keeps per thread
+/// from one call is there at the next - and wait for it at most `secs` seconds. `None`: it did not come
+/// back (or an earlier call did not, and this one was not started). Code under test must terminate on every
+/// input; a harness that waited for ever would turn a hang into silence.
+pub fn with_deadline<T: Send + 'static>(secs: u64, f: impl FnOnce() -> T + Send + 'static) -> Option<T> {
+    with_deadline_on(secs, false, f)
+}
+
+/// `fresh`: on a new thread instead (for what is read once per thread, such as the time zone)
+pub fn with_deadline_on<T: Send + 'static>(secs: u64, fresh: bool, f: impl FnOnce() -> T + Send + 'static) -> Option<T> {
+    use std::sync::atomic::Ordering;
+    if HUNG.load(Ordering::SeqCst) {
+        return None;
+    }
+    let (tx, rx) = std::sync::mpsc::channel();
+    let job: Job = Box::new(move || {
+        let _ = tx.send(f());
+    });
+    if fresh {
+        std::thread::spawn(job);
+    } else {
+        let mut w = WORKER.lock().unwrap();
+        if w.is_none() {
+            let (jtx, jrx) = std::sync::mpsc::channel::<Job>();
+            std::thread::spawn(move || {
+                for j in jrx {
+                    // (a job that panics answers nothing - its caller sees the closed channel - and the worker lives on)
+                    let _ = std::panic::catch_unwind(std::panic::AssertUnwindSafe(j));
+                }
+            });
+            *w = Some(jtx);
+        }
+        if w.as_ref().unwrap().send(job).is_err() {
+            return None;
+        }
+    }
+    match rx.recv_timeout(std::time::Duration::from_secs(secs)) {
+        Ok(v) => Some(v),
+        Err(std::sync::mpsc::RecvTimeoutError::Timeout) => {
+            HUNG.store(true, Ordering::SeqCst);
+            None
+        }
+        // the job ended without an answer (it panicked outside every guard)
+        Err(std::sync::mpsc::RecvTimeoutError::Disconnected) => None,
+    }
+}
+
 pub fn guarded<T>(f: impl FnOnce() -> T + std::panic::UnwindSafe) -> Result<T, ()> {
     std::panic::catch_unwind(f).map_err(|_| ())
 }
